@@ -216,112 +216,7 @@ func checkC08(c *Ctx) {
 	}
 
 	// ---- C08.3 expiry rule
-	r.Rule("C08.3", "expiry condition is (unused && age>unused-timeout) || age>active-timeout with 10 min / 6 h; every sweep examines every record", 5)
-	if f := c.fn("C08.3", "pkg/station/lib", "RegisteredDecoys", "getExpiredRegistrations"); f != nil {
-		// loop body = block after the range `next` test; header = the block holding `next`
-		var header *ssa.BasicBlock
-		for _, b := range f.Blocks {
-			for _, in := range b.Instrs {
-				if nx, ok := in.(*ssa.Next); ok {
-					if rg, ok := nx.Iter.(*ssa.Range); ok && strings.HasSuffix(pathOf(rg.X), ".decoysTimeouts") {
-						header = b
-					}
-				}
-			}
-		}
-		if header == nil || len(header.Succs) != 2 {
-			r.Unk("C08.3", "getExpiredRegistrations: range over decoysTimeouts", f.Pos(), fnName(f), "loop over the timeout map not found")
-		} else {
-			// every sweep examines every record: no return is reachable without entering the loop header
-			skip, w := reach(f, nil, isReturn, func(in ssa.Instruction) bool { return in.Block() == header }, nil)
-			if skip {
-				r.Bad("C08.3", "getExpiredRegistrations: a sweep can return without examining the records", f.Pos(), fnName(f),
-					"a path returns before the loop over the timeout records: on such sweeps expired registrations are kept (they keep matching connections and tracked state is no longer bounded by the registration rate)", r.blockPath(f, w)...)
-			} else {
-				r.OK("C08.3", "getExpiredRegistrations: every sweep iterates over all timeout records", f.Pos(), "no return reachable without passing the loop header")
-			}
-			body := header.Succs[0]
-			unusedVal := constIntOf(c.P, repoMod+"/pkg/station/lib", "regStatusUnused")
-			classify := func(cnd string) (string, bool, bool) {
-				switch {
-				case strings.Contains(cnd, ".status") && strings.Contains(cnd, " == "):
-					// "(K == X.status)"
-					m := regexp.MustCompile(`^\((\d+) == .*\.status\)$`).FindStringSubmatch(cnd)
-					if m == nil {
-						return "", false, false
-					}
-					return "unused", m[1] == unusedVal, true
-				default:
-					// the age is compared with the timeout field itself (not a derived value):
-					// "(r.timeoutX < age)" => age > T ; "(age < r.timeoutX)" => !(age >= T)
-					l, rr, ok := splitLt(cnd)
-					if !ok {
-						return "", false, false
-					}
-					isAge := func(x string) bool {
-						return (strings.HasPrefix(x, "time.Since(") || strings.HasPrefix(x, "time.Now().Sub(")) && strings.HasSuffix(x, ".registrationTime)") && balancedCall(x)
-					}
-					fld := regexp.MustCompile(`^[A-Za-z_][A-Za-z0-9_]*\.(timeoutUnused|timeoutActive)$`)
-					names := map[string]string{"timeoutUnused": "ageGtUnused", "timeoutActive": "ageGtActive"}
-					if m := fld.FindStringSubmatch(l); m != nil && isAge(rr) {
-						return names[m[1]], true, true
-					}
-					if m := fld.FindStringSubmatch(rr); m != nil && isAge(l) {
-						return names[m[1]], false, true
-					}
-				}
-				return "", false, false
-			}
-			outcome := func(in ssa.Instruction, b *ssa.BasicBlock, idx int, _ *ssa.BasicBlock, _ map[string]bool) string {
-				if b == header && idx == 0 {
-					return "keep"
-				}
-				if call, ok := in.(*ssa.Call); ok {
-					if bi, ok := call.Call.Value.(*ssa.Builtin); ok && bi.Name() == "append" {
-						return "expire"
-					}
-				}
-				return ""
-			}
-			res, err := condForm(f, body, 0, classify, outcome, 8)
-			if err != nil {
-				r.Unk("C08.3", "getExpiredRegistrations: expiry condition", body.Instrs[0].Pos(), fnName(f), err.Error())
-			} else {
-				diffs := res.compare(func(v map[string]bool) string {
-					if (v["unused"] && v["ageGtUnused"]) || v["ageGtActive"] {
-						return "expire"
-					}
-					return "keep"
-				})
-				for _, need := range []string{"unused", "ageGtUnused", "ageGtActive"} {
-					has := false
-					for _, a := range res.Atoms {
-						if a == need {
-							has = true
-						}
-					}
-					if !has {
-						diffs = append(diffs, "the sweep never tests "+need)
-					}
-				}
-				if len(diffs) > 0 {
-					r.Bad("C08.3", "getExpiredRegistrations: expiry condition differs from (unused && age>10min) || age>6h", f.Pos(), fnName(f),
-						"the sweep selects a different set than the property states: registrations expire early or are kept past their lifetime", diffs...)
-				} else {
-					r.OK("C08.3", "getExpiredRegistrations: expire iff (unused && age>timeoutUnused) || age>timeoutActive", f.Pos(), fmt.Sprintf("truth table over atoms %v, %d valuations", res.Atoms, len(res.Table)))
-				}
-			}
-			// the appended value is the loop key
-			eachInstr(f, func(in ssa.Instruction) {
-				if call, ok := in.(*ssa.Call); ok {
-					if bi, ok := call.Call.Value.(*ssa.Builtin); ok && bi.Name() == "append" {
-						okk := strings.Contains(pathOf(call.Call.Args[1]), "") // varargs slice; check store of range key below
-						_ = okk
-					}
-				}
-			})
-		}
-	}
+	checkExpirySelection(c, "C08.3", 5)
 	checkTimeoutWriters(c, "C08.3", owner)
 
 	checkRemovalUnconditional(c, "C08.7")
@@ -566,6 +461,119 @@ func checkTimeoutWriters(c *Ctx, rule, owner string) {
 // checkRemovalUnconditional: what the sweep selected is removed - the only things that may keep removeRegistration
 // from deleting the record are "record / registration not found" tests; every other condition is played by an
 // adversary (reachAgainst). Shared by C08.7 (expiry) and C02.7 (an expired registration no longer matches).
+// checkExpirySelection: the sweep's selection - every sweep examines every record and selects exactly those the expiry
+// condition names. Shared by C08.3 and C02.8 (an expired registration that a sweep leaves behind keeps matching
+// genuine first flights).
+func checkExpirySelection(c *Ctx, rule string, minInstances int) {
+	r := c.R
+	r.Rule(rule, "expiry condition is (unused && age>unused-timeout) || age>active-timeout with 10 min / 6 h; every sweep examines every record", minInstances)
+	if f := c.fn(rule, "pkg/station/lib", "RegisteredDecoys", "getExpiredRegistrations"); f != nil {
+		// loop body = block after the range `next` test; header = the block holding `next`
+		var header *ssa.BasicBlock
+		for _, b := range f.Blocks {
+			for _, in := range b.Instrs {
+				if nx, ok := in.(*ssa.Next); ok {
+					if rg, ok := nx.Iter.(*ssa.Range); ok && strings.HasSuffix(pathOf(rg.X), ".decoysTimeouts") {
+						header = b
+					}
+				}
+			}
+		}
+		if header == nil || len(header.Succs) != 2 {
+			r.Unk(rule, "getExpiredRegistrations: range over decoysTimeouts", f.Pos(), fnName(f), "loop over the timeout map not found")
+		} else {
+			// every sweep examines every record: no return is reachable without entering the loop header
+			skip, w := reach(f, nil, isReturn, func(in ssa.Instruction) bool { return in.Block() == header }, nil)
+			if skip {
+				r.Bad(rule, "getExpiredRegistrations: a sweep can return without examining the records", f.Pos(), fnName(f),
+					"a path returns before the loop over the timeout records: on such sweeps expired registrations are kept (they keep matching connections and tracked state is no longer bounded by the registration rate)", r.blockPath(f, w)...)
+			} else {
+				r.OK(rule, "getExpiredRegistrations: every sweep iterates over all timeout records", f.Pos(), "no return reachable without passing the loop header")
+			}
+			body := header.Succs[0]
+			unusedVal := constIntOf(c.P, repoMod+"/pkg/station/lib", "regStatusUnused")
+			classify := func(cnd string) (string, bool, bool) {
+				switch {
+				case strings.Contains(cnd, ".status") && strings.Contains(cnd, " == "):
+					// "(K == X.status)"
+					m := regexp.MustCompile(`^\((\d+) == .*\.status\)$`).FindStringSubmatch(cnd)
+					if m == nil {
+						return "", false, false
+					}
+					return "unused", m[1] == unusedVal, true
+				default:
+					// the age is compared with the timeout field itself (not a derived value):
+					// "(r.timeoutX < age)" => age > T ; "(age < r.timeoutX)" => !(age >= T)
+					l, rr, ok := splitLt(cnd)
+					if !ok {
+						return "", false, false
+					}
+					isAge := func(x string) bool {
+						return (strings.HasPrefix(x, "time.Since(") || strings.HasPrefix(x, "time.Now().Sub(")) && strings.HasSuffix(x, ".registrationTime)") && balancedCall(x)
+					}
+					fld := regexp.MustCompile(`^[A-Za-z_][A-Za-z0-9_]*\.(timeoutUnused|timeoutActive)$`)
+					names := map[string]string{"timeoutUnused": "ageGtUnused", "timeoutActive": "ageGtActive"}
+					if m := fld.FindStringSubmatch(l); m != nil && isAge(rr) {
+						return names[m[1]], true, true
+					}
+					if m := fld.FindStringSubmatch(rr); m != nil && isAge(l) {
+						return names[m[1]], false, true
+					}
+				}
+				return "", false, false
+			}
+			outcome := func(in ssa.Instruction, b *ssa.BasicBlock, idx int, _ *ssa.BasicBlock, _ map[string]bool) string {
+				if b == header && idx == 0 {
+					return "keep"
+				}
+				if call, ok := in.(*ssa.Call); ok {
+					if bi, ok := call.Call.Value.(*ssa.Builtin); ok && bi.Name() == "append" {
+						return "expire"
+					}
+				}
+				return ""
+			}
+			res, err := condForm(f, body, 0, classify, outcome, 8)
+			if err != nil {
+				r.Unk(rule, "getExpiredRegistrations: expiry condition", body.Instrs[0].Pos(), fnName(f), err.Error())
+			} else {
+				diffs := res.compare(func(v map[string]bool) string {
+					if (v["unused"] && v["ageGtUnused"]) || v["ageGtActive"] {
+						return "expire"
+					}
+					return "keep"
+				})
+				for _, need := range []string{"unused", "ageGtUnused", "ageGtActive"} {
+					has := false
+					for _, a := range res.Atoms {
+						if a == need {
+							has = true
+						}
+					}
+					if !has {
+						diffs = append(diffs, "the sweep never tests "+need)
+					}
+				}
+				if len(diffs) > 0 {
+					r.Bad(rule, "getExpiredRegistrations: expiry condition differs from (unused && age>10min) || age>6h", f.Pos(), fnName(f),
+						"the sweep selects a different set than the property states: registrations expire early or are kept past their lifetime", diffs...)
+				} else {
+					r.OK(rule, "getExpiredRegistrations: expire iff (unused && age>timeoutUnused) || age>timeoutActive", f.Pos(), fmt.Sprintf("truth table over atoms %v, %d valuations", res.Atoms, len(res.Table)))
+				}
+			}
+			// the appended value is the loop key
+			eachInstr(f, func(in ssa.Instruction) {
+				if call, ok := in.(*ssa.Call); ok {
+					if bi, ok := call.Call.Value.(*ssa.Builtin); ok && bi.Name() == "append" {
+						okk := strings.Contains(pathOf(call.Call.Args[1]), "") // varargs slice; check store of range key below
+						_ = okk
+					}
+				}
+			})
+		}
+	}
+}
+
 func checkRemovalUnconditional(c *Ctx, rule string) {
 	r := c.R
 	// ---- C08.7 what the sweep selected is removed: the only things that may keep removeRegistration from deleting the
